@@ -21,6 +21,8 @@ func c07(c *eng.Ctx, r *eng.Report) {
 		"R7.3 for wrapped Ethereum transactions the sender is recovered with an EIP-155 signer built from this chain's id at the given height, the decoded payload is the one converted, every field ConvertTx fills is compared by compareTx, and nil is returned only when the comparison holds; " +
 		"R7.4 every Transaction field read during execution is bound by GenHash or listed in the reviewed exclusion table; " +
 		"R7.5 every call of TransactionPool.AddTransaction is dominated by a successful VerifyTransaction of the same transaction (one-level inlining through sendTransaction). " +
+		"R7.10 an honest wrapped signature is rebuilt as it was made: recoverPlain right-aligns R and S each in its own 32-byte half (two copies to sig[W−len(b):W] from big.Int.Bytes) — padding their concatenation shifts R by a byte whenever S has a leading zero (1 signature in 128), another key is recovered and the honest transaction is rejected; " +
+		"R7.11 a native transaction is admitted only for the chain id in force at its height: every nil return of verifyTxChainId lies behind tx.ChainId == common.ChainId(height) — a second accepted id (the pre-fork one, at any height) lets a transaction signed for the old chain pass on the new one; " +
 		"R7.9 a protected payload has one signature: EIP155Signer.Sender passes recoverPlain the constant true as its homestead flag, so S > N/2 is rejected — without it the twin (S → N−S, V parity flipped) of every accepted wrapped transaction is accepted too; " +
 		"R7.8 a protected payload is recovered only for this chain: in EIP155Signer.Sender the call that recovers the sender is reached only across the edge on which the chain id derived from V compared equal (big.Int.Cmp == 0) to the signer's — a test on the remainder of V after subtracting the chain id (its bit length, say) ignores the sign, and V = 2·chainId − 19 then recovers the honest sender from the same r, s: a second accepted transaction nobody signed; " +
 		"R7.7 a signature has one accepted encoding: the signature check does not rewrite the recovery byte it is given (secp256k1.checkSignature maps 27..30 onto 0..3 in place, so v and v+27 are both accepted — finding F27, recorded; any further alias is reported separately); " +
@@ -35,6 +37,8 @@ func c07(c *eng.Ctx, r *eng.Report) {
 	c07Pure(c, r)
 	c07OneSignatureEncoding(c, r)
 	c07ChainIdBeforeRecover(c, r)
+	c07SignatureHalvesAligned(c, r)
+	c07ChainIdOfThisHeight(c, r)
 }
 
 // nilEdgesAt lists the call results known to be nil at instruction in (err == nil edges).
@@ -777,4 +781,68 @@ func c07ChainIdBeforeRecover(c *eng.Ctx, r *eng.Report) {
 	if n == 0 {
 		r.Fail(rule, "eip155:chain-id-before-recover", c.Pos(fn.Pos()), "EIP155Signer.Sender no longer calls recoverPlain: the rule has lost its anchor")
 	}
+}
+
+// c07SignatureHalvesAligned: see R7.10.
+func c07SignatureHalvesAligned(c *eng.Ctx, r *eng.Report) {
+	const rule = "R7.10"
+	r.Min(rule, 1)
+	fn := c.Func("eth_tx", "recoverPlain")
+	if !r.Anchor(fn != nil, rule, "eth_tx.recoverPlain") {
+		return
+	}
+	aligned := 0
+	for _, s := range eng.Sites(fn) {
+		if s.Name() != "builtin:copy" {
+			continue
+		}
+		a := s.Common().Args
+		if !strings.Contains(eng.Desc(a[1]), "big.Int).Bytes(") {
+			continue
+		}
+		if sl, ok := a[0].(*ssa.Slice); ok && sl.Low != nil {
+			if bo, isB := sl.Low.(*ssa.BinOp); isB && bo.Op == token.SUB && strings.Contains(eng.Desc(bo.Y), "builtin:len(") {
+				if _, isK := eng.ConstInt(bo.X); isK {
+					aligned++
+				}
+			}
+		}
+	}
+	r.Check(aligned >= 2, rule, "recoverPlain:halves-right-aligned", c.Pos(fn.Pos()), "R and S are each copied to sig[W-len(b):W]", fmt.Sprintf("recoverPlain right-aligns %d of the two signature scalars in their own 32-byte halves: built any other way (the concatenation padded as a whole, say) a short S shifts R, a different public key is recovered, and an honestly signed wrapped transaction — about 1 in 128 — is rejected as illegal", aligned))
+}
+
+// c07ChainIdOfThisHeight: see R7.11.
+func c07ChainIdOfThisHeight(c *eng.Ctx, r *eng.Report) {
+	const rule = "R7.11"
+	r.Min(rule, 1)
+	fn := c.Func("service", "verifyTxChainId")
+	if !r.Anchor(fn != nil, rule, "service.verifyTxChainId") {
+		return
+	}
+	n, bad := 0, ""
+	for _, re := range eng.Returns(fn) {
+		if !eng.IsNilConst(re.Incoming(0)) {
+			continue
+		}
+		n++
+		blk := re.Ret.Block()
+		if re.Pred != nil {
+			blk = re.Pred
+		}
+		ok := false
+		for _, cd := range eng.EdgeConds(blk) {
+			m, isM := cd.Cmp()
+			if !isM || m.Op != token.EQL {
+				continue
+			}
+			d := eng.Desc(m.X) + "|" + eng.Desc(m.Y)
+			if strings.Contains(d, ".ChainId") && strings.Contains(d, "common.ChainId(") {
+				ok = true
+			}
+		}
+		if !ok {
+			bad = c.Pos(re.Ret.Pos())
+		}
+	}
+	r.Check(bad == "" && n >= 1, rule, "chain-id:of-this-height", c.Pos(fn.Pos()), fmt.Sprintf("%d accepting return(s), each under tx.ChainId == common.ChainId(height)", n), "verifyTxChainId accepts (return nil at "+bad+") without tx.ChainId == common.ChainId(height) in force: a transaction whose declared chain id is not the one of this height is admitted — on the main-net configuration a transaction signed for 8888 passes after block 894116, where the chain's id is 2025")
 }
